@@ -130,6 +130,41 @@ theorem evalH_through (s : Sig) (body : PDict → Res Val) (unh : Call → Bool)
         rw [h.pd2np_eq] at hu ⊢
         exact evalH_through s body unh p below hb rest st c v hr h hu
 
+/-- a valid call whose key is unhashable (K5) goes through the `except` path of the cache layer: the plain function is
+executed once, the reply is `f`'s, nothing is stored -/
+theorem evalH_through_unh (s : Sig) (body : PDict → Res Val) (unh : Call → Bool) (p : PDict)
+    (below : List (Cls × PDict)) (hb : noCache below) :
+    ∀ (above : List (Cls × PDict)) (st : HSt) (c : Call) (v : Val), noCache above → ValidCall s body c v →
+      unh (reach s above c) = true →
+      evalH s body unh (above ++ (Cls.cache, p) :: below) st c =
+        ({ st with evals := st.evals ++ [reach s below (reach s above c)] }, .ok v)
+  | [], st, c, v, _, h, hu => by
+      simp only [reach] at hu ⊢
+      simp only [List.nil_append, evalH, hu, if_true]
+      exact evalH_below s body unh below st c v hb h
+  | (cls, q) :: rest, st, c, v, hn, h, hu => by
+      obtain ⟨hne, hr⟩ := noCache_cons hn
+      cases cls
+      · simp only [reach] at hu ⊢
+        have ih := evalH_through_unh s body unh p below hb rest st c v hr h hu
+        simp only [List.cons_append, evalH]
+        rw [attempts_ok _ _ st _ v ih]
+      · simp only [reach] at hu ⊢
+        have ih := evalH_through_unh s body unh p below hb rest st c v hr h hu
+        simp only [List.cons_append, evalH, ih]
+      · simp only [reach] at hu ⊢
+        simp only [List.cons_append, evalH]
+        rw [h.kwFilter_eq] at hu ⊢
+        exact evalH_through_unh s body unh p below hb rest st c v hr h hu
+      · exact absurd rfl hne
+      · simp only [reach] at hu ⊢
+        simp only [List.cons_append, evalH]
+        exact evalH_through_unh s body unh p below hb rest st _ v hr h.loops hu
+      · simp only [reach] at hu ⊢
+        simp only [List.cons_append, evalH]
+        rw [h.pd2np_eq] at hu ⊢
+        exact evalH_through_unh s body unh p below hb rest st c v hr h hu
+
 /-- the result of `f` as a value (used on valid calls only) -/
 def resultOf (s : Sig) (body : PDict → Res Val) (c : Call) : Val :=
   match applyFn s body c with
